@@ -407,6 +407,105 @@ func fmtCorpus() {
 	}
 }
 
+// ---------------------------------------------------------------- long lines
+
+// line lengths (without LF) around the buffer sizes a scanner could have; bufio's default limit
+// delivers a line iff it is at most 65535 bytes long
+var longTargets = []int{1024, 3900, 4000, 4090, 4095, 4096, 4097, 4200, 8191, 8192, 8193, 16384, 32767, 32768, 50000, 60000, 65000, 65534, 65535}
+var tooLongTargets = []int{65536, 65537, 70000}
+
+func fill(n int, r *hx.Rand) []byte {
+	alpha := []byte("abcdefghijklmnopqrstuvwxyz0123456789-_/.=:, ")
+	b := make([]byte, n)
+	for i := range b {
+		b[i] = alpha[r.Intn(len(alpha))]
+	}
+	if n > 0 {
+		b[0], b[n-1] = 'x', 'y' // no leading blank, no trailing CR
+	}
+	return b
+}
+
+// genLongAPI: results whose configuration block or benchmark line reaches a target length.
+func genLongAPI(r *hx.Rand, target int, kind int, tag string) {
+	run("api", func(c *caseB) {
+		c.tag("longline")
+		c.tag(tag)
+		val := []benchfmt.Value{{Value: 1, Unit: "ns/op"}}
+		before := &benchfmt.Result{Name: benchfmt.Name("Before"), Iters: 1, Values: val}
+		setFile(before, "a", "1")
+		c.write(before)
+		res := before.Clone()
+		res.Name = benchfmt.Name("Long")
+		switch kind {
+		case 0: // file-config value: line is `note: <value>`
+			c.tag("longvalue")
+			setFile(res, "note", string(fill(target-len("note: "), r)))
+		case 1: // many measurements: `BenchmarkLong 1` + n × ` 1234567 widgets` (reprinted as 1.234567e+06)
+			c.tag("manyvalues")
+			res.Values = res.Values[:0]
+			n := 0
+			for l := len("BenchmarkLong 1"); l+len(" 1.234567e+06 widgets") <= target; l += len(" 1.234567e+06 widgets") {
+				res.Values = append(res.Values, benchfmt.Value{Value: 1234567, Unit: "widgets"})
+				n++
+			}
+			// top up with the name
+			rest := target - len("BenchmarkLong 1") - n*len(" 1.234567e+06 widgets")
+			res.Name = benchfmt.Name("Long" + strings.Repeat("g", rest))
+		case 2: // long name (kept below 9000 bytes: the rest is a long internal value, which is not printed)
+			c.tag("longname")
+			nl := target
+			if nl > 9000 {
+				nl = 9000
+			}
+			res.Name = benchfmt.Name(strings.Repeat("N", nl-len("Benchmark 1 1 ns/op")))
+			res.SetConfig(".internal", string(fill(target, r)))
+		}
+		c.write(res)
+		// what follows a long line must survive too
+		c.write(&benchfmt.UnitMetadata{UnitMetadataKey: benchfmt.UnitMetadataKey{Unit: "widgets", Key: "better"}, OrigUnit: "widgets", Value: "higher"})
+		after := res.Clone()
+		after.Name = benchfmt.Name("After")
+		after.Values = val
+		after.SetConfig("note", "")
+		setFile(after, "b", "2")
+		c.write(after)
+	})
+}
+
+// genLongText: a text whose benchmark line GROWS when written (1234567 -> 1.234567e+06): the
+// input line has length `in`, the written one about in*15/10.
+func genLongText(in int, tag string) {
+	var b strings.Builder
+	b.WriteString("a: 1\nBenchmarkBefore 1 1 ns/op\nBenchmarkGrow 1")
+	for l := len("BenchmarkGrow 1"); l+len(" 1234567 u") <= in; l += len(" 1234567 u") {
+		b.WriteString(" 1234567 u")
+	}
+	b.WriteString("\nb: 2\nBenchmarkAfter 1 1 ns/op\n")
+	runText([]byte(b.String()), "longline", "grows", tag)
+}
+
+func longCorpus(r *hx.Rand) {
+	for _, t := range longTargets {
+		genLongAPI(r, t, 0, "fits")
+		genLongAPI(r, t, 1, "fits")
+		if t <= 9000 {
+			genLongAPI(r, t, 2, "fits")
+		}
+	}
+	for _, t := range tooLongTargets {
+		genLongAPI(r, t, 0, "over64k")
+		genLongAPI(r, t, 1, "over64k")
+	}
+	// input < 4096, output > 4096; input < 8192 < output; input < 64 KiB, output beyond
+	genLongText(2800, "fits")
+	genLongText(4000, "fits")
+	genLongText(6000, "fits")
+	genLongText(40000, "fits")
+	genLongText(45000, "over64k")
+	genLongText(65000, "over64k")
+}
+
 // ---------------------------------------------------------------- texts through the real reader
 
 var textValues = []string{"1", "x", "x y", "linux", "v:1", "é", "\xff", "Benchmark", ":", "x\ry", "a  ", "v1", "v2"}
@@ -580,6 +679,7 @@ func generate() {
 	r := hx.NewRand(1)
 	apiCorpus()
 	fmtCorpus()
+	longCorpus(r)
 	for _, t := range textCorpus {
 		runText([]byte(t), "corpus")
 	}
